@@ -287,6 +287,7 @@ pub struct Inner {
     // faults
     pub faults: Vec<(FaultSpec, bool)>,
     pub nth_counts: HashMap<(IoKind, PathClass), u64>,
+    pub op_read_counts: HashMap<PathClass, u64>,
     pub dead: bool,
     pub killed_at: Option<u64>,
     pub fired: Counters,
@@ -351,6 +352,7 @@ impl World {
                 session: 0,
                 faults: Vec::new(),
                 nth_counts: HashMap::new(),
+                op_read_counts: HashMap::new(),
                 dead: false,
                 killed_at: None,
                 fired: Counters::default(),
@@ -396,6 +398,7 @@ impl World {
         w.killed_at = None;
         w.mut_seq = 0;
         w.nth_counts.clear();
+        w.op_read_counts.clear();
         w.faults = faults.iter().filter(|f| f.session == idx).map(|f| (f.clone(), false)).collect();
         w.jobs.clear();
         w.running_jobs.clear();
@@ -660,6 +663,7 @@ impl Inner {
             let hit = match &f.sel {
                 Sel::Global { n } => *n == g,
                 Sel::Nth { kind: k, class: c, n } => *k == kind && ((*c == class && *n == n_specific) || (*c == PathClass::Any && class != PathClass::Any && *n == n_any) || (*c == PathClass::Any && class == PathClass::Any && *n == n_specific)),
+                Sel::NthOpRead { .. } => false,
             };
             if hit {
                 *used = true;
@@ -1055,6 +1059,36 @@ impl SimHooks for World {
             if let Some(errno) = hit {
                 w.push_event("read", &name, offset, len as u64, errno as i64);
                 w.note_fault("read_err", &name);
+                return Err(errno);
+            }
+        }
+        // reads made by anything but the checker's own queries
+        let has_op_read_fault = w.faults.iter().any(|(f, used)| !*used && matches!(f.sel, Sel::NthOpRead { .. }));
+        if has_op_read_fault && !w.eff_tag().map(|t| t.client == u32::MAX).unwrap_or(false) {
+            let class = class_of(kind);
+            let n = {
+                let c = w.op_read_counts.entry(class).or_insert(0);
+                let v = *c;
+                *c += 1;
+                v
+            };
+            let mut hit: Option<i32> = None;
+            for (f, used) in w.faults.iter_mut() {
+                if *used || hit.is_some() {
+                    continue;
+                }
+                if let Sel::NthOpRead { class: c, n: want } = &f.sel {
+                    if (*c == class || *c == PathClass::Any) && *want == n {
+                        *used = true;
+                        if let FaultAction::Fail { errno } = f.action {
+                            hit = Some(errno);
+                        }
+                    }
+                }
+            }
+            if let Some(errno) = hit {
+                w.push_event("read", &name, offset, len as u64, errno as i64);
+                w.note_fault("op_read_err", &name);
                 return Err(errno);
             }
         }
